@@ -122,7 +122,7 @@ def o17_3(tier):
                 ctx.ensure(ctx.eq(ctx.get(be, "gt"), ctx.item(res, last)), f"interface at position {k}: gt written back")
         return h
     return [("two-interfaces,raw", mk([2, 3], False, None, 1)), ("two-interfaces,average", mk([2, 3], False, "average", 1)),
-            ("repeated-interface,raw", mk([2, 3], True, None, 1)), ("brighter-image-x3,raw", mk([3], False, None, 3))]
+            ("repeated-interface,raw", mk([2, 3], True, None, 1)), ("repeated-interface,average", mk([2, 3], True, "average", 1)), ("brighter-image-x3,raw", mk([3], False, None, 3))]
 
 
 @obligation("O17.4", ["C17"], [M + ":get_interpolation"],
